@@ -311,6 +311,7 @@ def run_case(case):
                 a2, l2 = inner.inverse(x, ctx)
                 c1, m1 = b.module.inverse(x, ctx)
                 c2, m2 = inner(x, ctx)
-            if not (torch.equal(a1, a2) and torch.equal(l1, l2) and torch.equal(c1, c2) and torch.equal(m1, m2)):
+            same = lambda u, v: u.shape == v.shape and bool(torch.allclose(u, v, rtol=0, atol=0, equal_nan=True))  # noqa
+            if not (same(a1, a2) and same(l1, l2) and same(c1, c2) and same(m1, m2)):
                 res.fail("inverse_wrapper_not_exact_swap", "InverseTransform", "InverseTransform(t).forward/inverse are not bitwise t.inverse/forward")
     return res
